@@ -672,11 +672,14 @@ def writerCache (T : ColT) (x : PyVal) : Res PyVal := (toDb T x).bind (toPy T)
 
 /-! ## `WHERE col = <literal>` -/
 
-/-- affinity applied to a literal operand compared with a column of affinity `a` -/
-def cmpAff : Aff → Aff
-  | .text => .text
-  | .blob => .blob
-  | _ => .numeric
+/-- conversion of a literal operand compared with a column of affinity `a` (SQLite "Type Conversions Prior
+    To Comparison"): a TEXT column makes a numeric operand text; a numeric column makes a text operand
+    numeric if it looks numeric; numeric operands are compared by value as they are -/
+def cmpConv : Aff → DbVal → Option DbVal
+  | .text, v => applyAff .text v
+  | .blob, v => some v
+  | _, .text s => applyAff .numeric (.text s)
+  | _, v => some v
 
 /-- is the integer exactly representable as an IEEE double (53-bit significand; overflow ignored) -/
 def exactNat (n : Nat) : Bool := n ≤ 9007199254740992 || n % 2 ^ (n.log2 - 52) == 0
@@ -706,7 +709,7 @@ def whereFinds (T : ColT) (y : PyVal) (cell : DbVal) : Res Bool :=
       match evalLit l with
       | none => .reject
       | some v =>
-        match applyAff (cmpAff (aff T)) v with
+        match cmpConv (aff T) v with
         | none => .unmodelled
         | some w => .ok (sqlEq cell w)
     | .invalid => .invalid
